@@ -373,10 +373,12 @@ func (f *Func) reachTarget(
 			}
 		}
 
-		// If we're skipping because we have this value already, then
-		// note that we're using this input in the input set.
+		// If we're skipping because we have this value already, there is
+		// nothing more to reach. Inputs are recorded in the input set where
+		// a path starts (below). A typed argument that already carries a
+		// value was either recorded then, or it is the intermediate result
+		// of a converter, which is not an input.
 		if skip {
-			state.InputSet[graph.VertexID(out)] = out
 			continue
 		}
 
